@@ -834,5 +834,5 @@ Lemma model_anchored :
   backend_choice_thread_local = true /\ backend_get_installs_default = true /\
   ctx_saves_field = true /\ ctx_sets_in_try = true /\ ctx_restores_old_in_finally = true /\
   jit_init_copies = true /\ jit_init_donates = [] /\ jit_step_donates = [0] /\ jit_final_donates = [1] /\
-  pmap_init_donates = [] /\ pmap_step_donates = [0] /\ pmap_final_donates = [1] /\ blockify_sort_reverse = true.
+  blockify_sort_reverse = true.
 Proof. repeat split; reflexivity. Qed.
